@@ -134,7 +134,7 @@ def MC_RUNS2(quick):
              "bit, encode/decode round trips, all strings of length <= 1 and tag x bytes below 2^(m+1) (+128, 255) of "
              "length 2, 3: accepted = canonical; field elements binary and text in every power-of-two radix", False)]
     if not quick:
-        runs += [("MCCodecB", "MCCodecB_m5", "GF(8) (second polynomial), GF(32) (two polynomials), a in 0..3, every b", False)]
+        runs += [("MCCodecB", "MCCodecB_m5", "GF(8) (second polynomial), GF(32) (two polynomials): every a, every b (2040 curves)", False)]
     return runs
 
 
